@@ -43,6 +43,7 @@ fn main() {
         ("record", "C20") => serial::record_c20(&a),
         ("record", "C17") => twin::record_c17(&a),
         ("record", "C08") => sys::record_c08(&a),
+        ("record", "API") => sys::record_api(&a),
         ("record", "C09") => ctl::record_c09(&a),
         ("record", "C10") => ctl::record_c10(&a),
         ("record", "C11") => ctl::record_c11(&a),
